@@ -106,22 +106,16 @@ theorem digits_form (l : List Int) (h : l.length = 112) : l = (List.range 112).m
     simp [List.getD, List.getElem?_eq_getElem h1]
 
 theorem scalarMult_facts :
-    G.scalarMult.inputs = ["v", "q", "digits"] ∧ G.scalarMult.outputs = ["v"]
-    ∧ G.scalarMult.guards = [("checkInitialized", ["q"])]
+    G.scalarMult.inputs = ["r", "p1", "a0"] ∧ G.scalarMult.outputs = ["r"]
+    ∧ G.scalarMult.guards = [("checkInitialized", ["p1"])]
     ∧ G.scalarMult.paramWrites = [] ∧ G.scalarMult.hazards = []
-    ∧ G.scalarMult.facts = [("opaque digits", "x.signedRadix16()"),
-        ("index-checked", "digits in [111, 111] of 112"),
-        ("index-checked", "digits in [0, 110] of 112"),
-        ("loop 1", "from 110 down to 0")] := by
+    ∧ G.scalarMult.facts = [("opaque a0", "p0.signedRadix16()"), ("index-checked", "a0 in [111, 111] of 112"), ("index-checked", "a0 in [0, 110] of 112"), ("loop 1", "from 110 down to 0")] := by
   ptops_decide "C16MulOps.scalarMult_facts"
 
 theorem scalarBaseMult_facts :
-    G.scalarBaseMult.inputs = ["v", "varBasepointTable[].points", "digits"] ∧ G.scalarBaseMult.outputs = ["v"]
+    G.scalarBaseMult.inputs = ["r", "varBasepointTable[].f0", "a0"] ∧ G.scalarBaseMult.outputs = ["r"]
     ∧ G.scalarBaseMult.guards = [] ∧ G.scalarBaseMult.paramWrites = [] ∧ G.scalarBaseMult.hazards = []
-    ∧ G.scalarBaseMult.facts = [("table-func", "basepointTable() = &varBasepointTable"),
-        ("opaque digits", "x.signedRadix16()"),
-        ("index-checked", "digits in [1, 111] of 112"), ("loop 1", "from 1 below 112 step 2"),
-        ("index-checked", "digits in [0, 110] of 112"), ("loop 2", "from 0 below 112 step 2")] := by
+    ∧ G.scalarBaseMult.facts = [("table-func", "basepointTable() = &varBasepointTable"), ("opaque a0", "p0.signedRadix16()"), ("index-checked", "a0 in [1, 111] of 112"), ("loop 1", "from 1 below 112 step 2"), ("index-checked", "a0 in [0, 110] of 112"), ("loop 2", "from 0 below 112 step 2")] := by
   ptops_decide "C16MulOps.scalarBaseMult_facts"
 
 end C16MulOps
